@@ -1025,6 +1025,14 @@ func (lc *leaderController) close() error {
 
 	err = lc.sessionManager.Close()
 
+	// Close the tracker before the db: an ack that is being processed completes
+	// the waiting writes, which get applied on the db, while holding the tracker
+	// mutex. Once the tracker is closed, no more writes are applied.
+	if lc.quorumAckTracker != nil {
+		err = multierr.Append(err, lc.quorumAckTracker.Close())
+		lc.quorumAckTracker = nil
+	}
+
 	if lc.wal != nil {
 		err = multierr.Append(err, lc.wal.Close())
 		lc.wal = nil
@@ -1033,11 +1041,6 @@ func (lc *leaderController) close() error {
 	if lc.db != nil {
 		err = multierr.Append(err, lc.db.Close())
 		lc.db = nil
-	}
-
-	if lc.quorumAckTracker != nil {
-		err = multierr.Append(err, lc.quorumAckTracker.Close())
-		lc.quorumAckTracker = nil
 	}
 
 	return err
